@@ -1,10 +1,65 @@
-(* Props/C05.v — ARPA prefix decoding and extraction.  PARTIAL: executable
-   instances (including every formerly defective witness) are proved; the
-   whole-string theorems C05_prefix / C05_extract are work in progress (see
-   DESIGN.md); until then the property rests on the correspondence of the L1
-   model (Go indices, bounds-checked) with the implementation. *)
+(* Props/C05.v — ARPA prefix decoding and extraction, for all strings.
+
+   canon4 os  = the octets os (address order, any number) printed last-first as
+                Itoa labels in front of in-addr.arpa; canon6n ns likewise for
+                nibbles as single lower-case hex digits in front of ip6.arpa.
+   is_prefix4 arpa ip bits := arpa = canon4 os for k = |os| <= 4 bytes,
+                ip = os padded with zeros to 4 bytes, bits = 8k; is_prefix6 likewise
+                (k <= 32 nibbles, packed high nibble first, bits = 4k).
+   aligned pre := pre is empty or ends with a dot.
+
+   idna.ToASCII: soundness theorems hold for every answer of the oracle (they
+   assume only that the name does not start with a dot, which domain validation
+   of the unchanged name implies); the iff / completeness theorems take the
+   oracle's answer to be the name itself (ASCII names without xn-- labels;
+   checked per run by the correspondence). *)
 From Verif Require Import Base.GoPrim Base.Strings Gen.Consts Gen.BytePreds Std.Netip Std.Net
-  Model.Addr Model.Ip Model.Reversed Proofs.ReversedBasics.
+  Model.Addr Model.Ip Model.Reversed Proofs.AddrProofs Proofs.ReversedBasics Proofs.ReversedRoundtrip Proofs.ReversedLanguage
+  Proofs.ReversedPrefix Proofs.ReversedExtract.
+
+(* PrefixFromReversedAddr succeeds exactly on the canonical prefix names, with exactly their prefix *)
+Theorem C05_prefix : forall s ip bits, Forall byte s ->
+  prefix_from_reversed_addr s (Some (trim_dot s)) = Ret (Ok (ip, bits)) <->
+  is_prefix4 (to_lower_ascii (trim_dot s)) ip bits \/ is_prefix6 (to_lower_ascii (trim_dot s)) ip bits.
+Proof. exact prefix_spec. Qed.
+
+(* ... and accepts nothing else whatever ToASCII answers *)
+Theorem C05_prefix_sound : forall s a ip bits, Forall byte s -> nth 0 (trim_dot s) 0 <> 46 ->
+  prefix_from_reversed_addr s a = Ret (Ok (ip, bits)) ->
+  is_prefix4 (to_lower_ascii (trim_dot s)) ip bits \/ is_prefix6 (to_lower_ascii (trim_dot s)) ip bits.
+Proof. exact prefix_sound. Qed.
+
+Theorem C05_prefix4_complete : forall s os, Forall byte os -> len os <= 4 -> to_lower_ascii (trim_dot s) = canon4 os ->
+  prefix_from_reversed_addr s (Some (trim_dot s)) = Ret (Ok (pad_to 4 os, len os * 8)).
+Proof. exact prefix4_complete. Qed.
+
+Theorem C05_prefix6_complete : forall s ns, Forall nibble ns -> len ns <= 32 -> to_lower_ascii (trim_dot s) = canon6n ns ->
+  prefix_from_reversed_addr s (Some (trim_dot s)) = Ret (Ok (pad_to 16 (pack_nibbles ns), len ns * 4)).
+Proof. exact prefix6_complete. Qed.
+
+(* ExtractReversedAddr succeeds iff the name is a valid domain name with a label-aligned ARPA root *)
+Theorem C05_extract_iff : forall s, Forall byte s ->
+  (exists ip bits, extract_reversed_addr s (Some (trim_dot s)) = Ret (Ok (ip, bits))) <->
+  name_okb domlabelb (trim_dot s) = true /\ has_aligned_root (to_lower_ascii (trim_dot s)).
+Proof. exact extract_iff. Qed.
+
+(* what it returns: the prefix of an aligned canonical suffix that cannot be extended to the left *)
+Theorem C05_extract_sound : forall s a ip bits, Forall byte s -> nth 0 (trim_dot s) 0 <> 46 ->
+  extract_reversed_addr s a = Ret (Ok (ip, bits)) -> extracted (to_lower_ascii (trim_dot s)) ip bits.
+Proof. exact extract_sound. Qed.
+
+(* ... which is the longest aligned canonical suffix *)
+Theorem C05_longest4 : forall pre os pre2 os2, aligned pre -> Forall byte os -> maximal4 pre os ->
+  aligned pre2 -> Forall byte os2 -> len os2 <= 4 -> pre ++ canon4 os = pre2 ++ canon4 os2 -> len pre <= len pre2.
+Proof. exact maximal4_longest. Qed.
+
+Theorem C05_longest6 : forall pre ns pre2 ns2, aligned pre -> Forall nibble ns -> maximal6 pre ns ->
+  aligned pre2 -> Forall nibble ns2 -> len ns2 <= 32 -> pre ++ canon6n ns = pre2 ++ canon6n ns2 -> len pre <= len pre2.
+Proof. exact maximal6_longest. Qed.
+
+(* isIPv4Label accepts exactly the canonical decimal octets *)
+Theorem C05_ipv4_label : forall lab, is_ipv4_label lab = true <-> exists v, byte v /\ lab = itoa v.
+Proof. exact is_ipv4_label_iff. Qed.
 
 Definition s_in_addr_arpa := [105; 110; 45; 97; 100; 100; 114; 46; 97; 114; 112; 97].
 Definition s_ip6_arpa := [105; 112; 54; 46; 97; 114; 112; 97].
@@ -23,14 +78,32 @@ Example C05_examples :
   extract_reversed_addr ([97;97;46] ++ s_ip6_arpa) (Some ([97;97;46] ++ s_ip6_arpa)) = Ret (Ok (zeros 16, 0)) /\
   (* xa.b.ip6.arpa: the longest label-aligned suffix is b.ip6.arpa *)
   extract_reversed_addr ([120;97;46;98;46] ++ s_ip6_arpa) (Some ([120;97;46;98;46] ++ s_ip6_arpa))
-    = Ret (Ok ([176;0;0;0;0;0;0;0;0;0;0;0;0;0;0;0], 4)).
-Proof. vm_compute. repeat split; reflexivity. Qed.
+    = Ret (Ok ([176;0;0;0;0;0;0;0;0;0;0;0;0;0;0;0], 4)) /\
+  (* the premises of the theorems are inhabited *)
+  is_prefix4 (canon4 [10; 20]) (pad_to 4 [10; 20]) 16 /\ canon6n [11; 10] = [97;46;98;46] ++ s_ip6_arpa /\
+  maximal6 [120;97;46] [11].
+Proof.
+  repeat (split; [vm_compute; reflexivity|]). split; [|split; [reflexivity|]].
+  - exists [10; 20]. split; [repeat constructor; unfold byte; lia|]. split; [cbn; lia|]. repeat split; reflexivity.
+  - right. right. exists [120; 97]. split; [reflexivity|]. intros (q0 & c & E & Hal & _).
+    change [120; 97] with ([120] ++ [97]) in E. apply app_inj_tail in E as [<- <-]. destruct Hal as [E|(q & E)]; [discriminate|].
+    destruct q as [|x [|y q]]; discriminate.
+Qed.
 
 Theorem C05_nibble_roundtrip : forall n, 0 <= n < 16 -> gen_fromHexByte (hexdigit n) = n.
 Proof. exact from_hex_of_hexdigit. Qed.
 
 Theorem C05_octet_label : forall v, 0 <= v < 256 -> is_ipv4_label (itoa v) = true /\ parse_uint8 (itoa v) = Some v.
-Proof. intros v H. split; [apply itoa_label|apply itoa_uint8]; exact H. Qed.
+Proof. exact octet_label. Qed.
 
+Print Assumptions C05_prefix.
+Print Assumptions C05_prefix_sound.
+Print Assumptions C05_prefix4_complete.
+Print Assumptions C05_prefix6_complete.
+Print Assumptions C05_extract_iff.
+Print Assumptions C05_extract_sound.
+Print Assumptions C05_longest4.
+Print Assumptions C05_longest6.
+Print Assumptions C05_ipv4_label.
 Print Assumptions C05_nibble_roundtrip.
 Print Assumptions C05_octet_label.
